@@ -167,6 +167,18 @@ func (info *Info) Encode() []byte {
 	featureList := info.FeatureList.encode()
 	lookupList := info.LookupList.encode()
 
+	// A missing list is written as an empty list: an offset of 0 makes the
+	// reader drop (script or lookup list) or reject (feature list) the table.
+	if scriptList == nil {
+		scriptList = []byte{0, 0}
+	}
+	if featureList == nil {
+		featureList = []byte{0, 0}
+	}
+	if lookupList == nil {
+		lookupList = []byte{0, 0}
+	}
+
 	total := 10
 	var scriptListOffset int
 	if scriptList != nil {
